@@ -221,6 +221,34 @@ Outcome run_files_events(const Plan & plan, const RunCtx & ctx)
   std::string sigctx = "events " + fault_kinds(plan);
   if (check) {
     if (invalid_event) out.fail("C15", "garbage-load", "invalid-event-delivered " + sigctx, "event_reader delivered an event that fails event::is_valid(): " + invalid_brief);
+    // a torn tail, nothing else: the file is a valid prefix followed by one incomplete record. If the cut removed at least
+    // the last value of that record, no loader can deliver it without making values up
+    {
+      bool only_trunc = true; i64 cut = -1; int nfaults = 0;
+      for (const Op & op : plan.ops) {
+        if (op.k == "src" || op.k == "use" || op.k == "again") continue;
+        nfaults++;
+        if (op.k == "trunc") cut = op.arg(0) % (i64)(valid.size() + 1); else only_trunc = false;
+      }
+      if (only_trunc && nfaults == 1 && cut >= 0 && start == 0 && maxn == 0 && !threw) {
+        // records of the valid text: [begin, offset of the last token)
+        size_t pos = 0; i64 complete = 0; bool incomplete_missing_value = false;
+        while (pos < valid.size()) {
+          size_t e = valid.find("\n\n", pos);
+          size_t rec_end = e == std::string::npos ? valid.size() : e + 1; // just after the newline of the last particle line
+          size_t last_tok = valid.find_last_not_of(" \n", rec_end - 1);
+          last_tok = valid.find_last_of(" \n", last_tok); last_tok = last_tok == std::string::npos ? pos : last_tok + 1;
+          if ((size_t)cut >= rec_end) complete++;
+          else { if ((size_t)cut > pos && (size_t)cut <= last_tok) incomplete_missing_value = true; break; }
+          pos = e == std::string::npos ? valid.size() : e + 2;
+        }
+        out.ctr["torn_tail_runs_with_content_oracle"]++;
+        if (incomplete_missing_value && delivered > complete + 1)
+          out.fail("C15", "garbage-load", "event-delivered-from-incomplete-record " + sigctx,
+                   "the file was cut at byte " + std::to_string(cut) + ", inside record #" + std::to_string(complete) + " and before its last value; " + std::to_string(delivered)
+                       + " events were delivered (" + std::to_string(complete) + " complete records + 1 in the second file): one of them was made up");
+      }
+    }
     if ((size_t)delivered * 2 > lines + 2) out.fail("C15", "garbage-load", "more-events-than-the-file-can-hold " + sigctx, std::to_string(delivered) + " events delivered from a file of " + std::to_string(lines) + " lines");
   }
   check_resources(out, check, "event_reader", lim, alloc_ctl().bytes, alloc_ctl().max_single, reads, sigctx);
